@@ -24,7 +24,7 @@ import (
 func init() {
 	core.Register(&core.Prop{
 		ID: "C14",
-		Rule: "E1 bounded-exhaustive: (a) every requirement graph of family F1 (2 dependency modules x 3 versions: each node requires {nothing | one version} of the other module, target requires {nothing | one version} of each: 65536 graphs) and F2 (3 modules x 2 versions, <=4 edges quick / all thorough) and F3 (prerelease + extra versions), each with every requirement list reversed singly and pairwise, through mvs.BuildList / Req / Upgrade / Downgrade; (c) all pairs of a 2000-string version alphabet (valid, short, near-valid) through semver.Compare / IsValid / Canonical and Vs.Max. " +
+		Rule: "E1 bounded-exhaustive: (a) every requirement graph of family F1 (2 dependency modules x 3 versions: each node requires {nothing | one version} of the other module, target requires {nothing | one version} of each: 65536 graphs) and F2 (3 modules x 2 versions, <=4 edges quick / all thorough) and F3 (prerelease + extra versions), each with every requirement list reversed singly and pairwise, through mvs.BuildList / Req / Upgrade (one request; two requests incl. the same path twice) / UpgradeAll / Downgrade; (c) all pairs of a 2000-string version alphabet (valid, short, near-valid) through semver.Compare / IsValid / Canonical and Vs.Max. " +
 			"Non-trivial = graphs where some module is selected above the version the target requires (an upgrade through a dependency) or that contain a cycle.",
 		Assumptions: []string{"oracle (a): breadth-first reachability over requirement edges from every listed version, selected = maximum reached version per path (the definition of MVS); oracle (c): semver.org section 11 with math/big numeric identifiers, plus this package's documented v-prefix and vMAJOR[.MINOR] shorthands"},
 		Run:         run, Replay: replay,
@@ -80,7 +80,14 @@ func (r *reqs) Required(m V) ([]V, error) {
 	return l, nil
 }
 
-func (r *reqs) Upgrade(m V) (V, error) { return m, nil }
+// Upgrade is the query "latest available version" (identity when the path
+// has no listed versions).
+func (r *reqs) Upgrade(m V) (V, error) {
+	if vl := r.avail[m.Path()]; len(vl) > 0 {
+		return V{m.Path(), vl[len(vl)-1]}, nil
+	}
+	return m, nil
+}
 func (r *reqs) Previous(m V) (V, error) {
 	vl := r.avail[m.Path()]
 	prev := "none"
@@ -430,6 +437,57 @@ func check(r *core.Run, c kase) {
 		// oracle: target's list with n added (max wins by BFS)
 		wu, _ := oracle(target, append(append([]V{}, t...), n), rq.g)
 		if !checkList("Upgrade("+n.String()+")", up, wu) {
+			return
+		}
+	}
+	// Upgrade with two requests: the same path twice (both orders; the higher
+	// request wins) and two different paths
+	nodes := sortedNodes(rq)
+	for i, n1 := range nodes {
+		for j, n2 := range nodes {
+			if i == j || (n1.Path() != n2.Path() && i > j) {
+				continue
+			}
+			up, err := mvs.Upgrade(target, rq, n1, n2)
+			r.Trans(1)
+			if err != nil {
+				fail("Upgrade fails", err.Error())
+				return
+			}
+			// requests for one path collapse to the highest one
+			add := []V{n1, n2}
+			if n1.Path() == n2.Path() {
+				add = []V{n1}
+				if semver.Compare(n2.Version(), n1.Version()) > 0 {
+					add = []V{n2}
+				}
+			}
+			wu, _ := oracle(target, append(append([]V{}, t...), add...), rq.g)
+			if !checkList("Upgrade("+n1.String()+", "+n2.String()+")", up, wu) {
+				return
+			}
+		}
+	}
+	// UpgradeAll: every module met is also required at its latest version
+	{
+		gu := map[V][]V{}
+		latest := func(m V) V { u, _ := rq.Upgrade(m); return u }
+		for m, l := range rq.g {
+			gu[m] = append([]V{}, l...)
+		}
+		for _, n := range nodes {
+			if u := latest(n); u != n {
+				gu[n] = append(gu[n], u)
+			}
+		}
+		ua, err := mvs.UpgradeAll(target, rq)
+		r.Trans(1)
+		if err != nil {
+			fail("UpgradeAll fails", err.Error())
+			return
+		}
+		wa, _ := oracle(target, t, gu)
+		if !checkList("UpgradeAll", ua, wa) {
 			return
 		}
 	}
